@@ -47,12 +47,21 @@ def rule_status_vocab(ctx: Ctx, prog: Program) -> None:
             v = prog.const_value(fn.module, e.id)
             if v is not NO and v in statuses and e.id.startswith("PROP_"):
                 return None
+            # a local: every value it is given must itself be a status
+            vals = [n.value for n in ast.walk(fn.node) if isinstance(n, ast.Assign) and any(isinstance(t, ast.Name) and t.id == e.id for t in n.targets)]
+            if vals and e.id not in fn.params and depth < 12 and not any(isinstance(n, (ast.AugAssign, ast.For)) and any(
+                    isinstance(x, ast.Name) and x.id == e.id for x in ast.walk(n.target)) for n in ast.walk(fn.node)):
+                for v_ in vals:
+                    why_ = ok_expr(fn, v_, depth)
+                    if why_:
+                        return f"returns '{e.id}', which {why_.replace('returns', 'may hold', 1)}"
+                return None
             return f"returns '{e.id}', which is not a PROP_* status"
         if isinstance(e, ast.IfExp):
             return ok_expr(fn, e.body, depth) or ok_expr(fn, e.orelse, depth)
         if isinstance(e, ast.Call) and isinstance(e.func, ast.Name):
             r = prog.resolve(fn.module, e.func.id)
-            if r and r[0] == "func" and depth < 6:
+            if r and r[0] == "func" and depth < 12:
                 return check_fn(r[1], depth + 1)
             return f"returns the result of {e.func.id}(...)"
         return f"returns {ast.unparse(e)}"
@@ -149,6 +158,14 @@ def _fold_mask(prog: Program, fn: FuncInfo, e: ast.expr) -> Optional[int]:
 
 def _sign_of_test(test: ast.expr, cname: str) -> Optional[Tuple[frozenset, frozenset]]:
     """(signs when true, signs when false) for a comparison of the coefficient with 0."""
+    if isinstance(test, ast.UnaryOp) and isinstance(test.op, ast.Not):
+        r = _sign_of_test(test.operand, cname)
+        return (r[1], r[0]) if r is not None else None
+    if isinstance(test, ast.Compare) and len(test.ops) == 1 and isinstance(test.comparators[0], ast.Name) and test.comparators[0].id == cname \
+            and isinstance(test.left, ast.Constant) and test.left.value == 0:
+        flip = {ast.Gt: ast.Lt, ast.Lt: ast.Gt, ast.GtE: ast.LtE, ast.LtE: ast.GtE, ast.Eq: ast.Eq, ast.NotEq: ast.NotEq}
+        if type(test.ops[0]) in flip:
+            return _sign_of_test(ast.Compare(left=test.comparators[0], ops=[flip[type(test.ops[0])]()], comparators=[test.left]), cname)
     if isinstance(test, ast.Compare) and len(test.ops) == 1 and isinstance(test.left, ast.Name) and test.left.id == cname \
             and isinstance(test.comparators[0], ast.Constant) and test.comparators[0].value == 0:
         op = type(test.ops[0])
@@ -720,6 +737,11 @@ def rule_enforce_entail(ctx: Ctx, prog: Program) -> None:
                 tests: List[Tuple[ast.expr, int]] = []
                 if isinstance(s, ast.Return) and isinstance(s.value, ast.IfExp) and isinstance(s.value.body, ast.Name) and s.value.body.id == PE:
                     tests.append((s.value.test, s.lineno))
+                # the same through a local:  r = ENTAILMENT if cond else CONSISTENCY ; return r
+                if isinstance(s, ast.Assign) and len(s.targets) == 1 and isinstance(s.targets[0], ast.Name) and isinstance(s.value, ast.IfExp) \
+                        and isinstance(s.value.body, ast.Name) and s.value.body.id == PE \
+                        and any(isinstance(x, ast.Return) and isinstance(x.value, ast.Name) and x.value.id == s.targets[0].id for x in block):
+                    tests.append((s.value.test, s.lineno))
                 if isinstance(s, ast.If) and any(isinstance(x, ast.Return) and isinstance(x.value, ast.Name) and x.value.id == PE for x in s.body):
                     tests.append((s.test, s.lineno))
                 for t, line in tests:
@@ -877,6 +899,22 @@ def rule_mirror_entail(ctx: Ctx, prog: Program) -> None:
 
 
 # ------------------------------------------------------------------------------------------ R-ENTAIL-GUARD
+def _unit_step(st: ast.stmt) -> Optional[Tuple[str, int]]:
+    """(name, +1 / -1) for  n += 1, n -= 1, n = n + 1, n = n - 1, n = 1 + n"""
+    if isinstance(st, ast.AugAssign) and isinstance(st.target, ast.Name) and isinstance(st.op, (ast.Add, ast.Sub)) \
+            and isinstance(st.value, ast.Constant) and st.value.value == 1:
+        return st.target.id, (1 if isinstance(st.op, ast.Add) else -1)
+    if isinstance(st, ast.Assign) and len(st.targets) == 1 and isinstance(st.targets[0], ast.Name) and isinstance(st.value, ast.BinOp) \
+            and isinstance(st.value.op, (ast.Add, ast.Sub)):
+        nm = st.targets[0].id
+        l, r = st.value.left, st.value.right
+        if isinstance(l, ast.Name) and l.id == nm and isinstance(r, ast.Constant) and r.value == 1:
+            return nm, (1 if isinstance(st.value.op, ast.Add) else -1)
+        if isinstance(st.value.op, ast.Add) and isinstance(r, ast.Name) and r.id == nm and isinstance(l, ast.Constant) and l.value == 1:
+            return nm, 1
+    return None
+
+
 def _loops_in(trace) -> List[LoopSummary]:
     out: List[LoopSummary] = []
 
@@ -1015,10 +1053,9 @@ def rule_entail_guard(ctx: Ctx, prog: Program) -> None:
         counters: Optional[Tuple[str, str]] = None
         for node in ast.walk(fn.node):
             if isinstance(node, ast.For):
-                ups = {n.target.id for n in ast.walk(node) if isinstance(n, ast.AugAssign) and isinstance(n.op, ast.Add) and isinstance(n.target, ast.Name)
-                       and isinstance(n.value, ast.Constant) and n.value.value == 1}
-                downs = {n.target.id for n in ast.walk(node) if isinstance(n, ast.AugAssign) and isinstance(n.op, ast.Sub) and isinstance(n.target, ast.Name)
-                         and isinstance(n.value, ast.Constant) and n.value.value == 1}
+                steps = [_unit_step(n) for n in ast.walk(node) if isinstance(n, ast.stmt)]
+                ups = {s_[0] for s_ in steps if s_ and s_[1] == 1}
+                downs = {s_[0] for s_ in steps if s_ and s_[1] == -1}
                 if len(ups) == 1 and len(downs) == 1 and ups != downs and counters is None:
                     counters = (next(iter(ups)), next(iter(downs)))
         tables: List[str] = []
@@ -1155,8 +1192,7 @@ def rule_sole_candidate(ctx: Ctx, prog: Program) -> None:
             for node in ast.walk(loop):
                 if not (isinstance(node, ast.If) and isinstance(node.test, ast.Compare) and len(node.test.ops) == 1):
                     continue
-                ups = [s_.target.id for s_ in node.body if isinstance(s_, ast.AugAssign) and isinstance(s_.op, ast.Add) and isinstance(s_.target, ast.Name)
-                       and isinstance(s_.value, ast.Constant) and s_.value.value == 1]
+                ups = [_unit_step(s_)[0] for s_ in node.body if _unit_step(s_) and _unit_step(s_)[1] == 1]
                 recs = [s_.targets[0].id for s_ in node.body if isinstance(s_, ast.Assign) and len(s_.targets) == 1 and isinstance(s_.targets[0], ast.Name)
                         and isinstance(s_.value, ast.Name) and s_.value.id in idx_names]
                 if len(ups) == 1 and len(recs) == 1:
